@@ -48,7 +48,7 @@ class RefEngine:
     # -- creation -----------------------------------------------------------
     def _new_event(self, t: int, to: int, k: int, daemon: bool) -> dict:
         rec = {"t": t, "seq": self.seq, "to": to, "k": k, "daemon": daemon, "cancelled": False,
-               "uid": len(self.registry), "cont": None, "phase": self.phase}
+               "uid": len(self.registry), "cont": None, "phase": self.phase, "hops": 0}
         self.seq += 1
         self.registry.append(rec)
         return rec
@@ -92,7 +92,7 @@ class RefEngine:
         if rec["cont"] is None:
             if rec["to"] in self.crashed:
                 return
-            self.log.append((rec["uid"], -1, self.now))
+            self.log.append((rec["uid"], -(1 + rec["hops"]), self.now))
             if h is None:
                 return
             self._prelude(h)
@@ -110,6 +110,15 @@ class RefEngine:
                 created = created[:1]
             self.pending.extend(direct)
             self.pending.extend(created)
+            ru = h.get("reuse")
+            if ru and h["shape"] == "list" and self.fuel > 0 and rec["hops"] < 2:
+                # the same event object goes back on the heap: new time/target, ORIGINAL creation index
+                self.fuel -= 1
+                rec["t"] = self.now + max(0, ru["dt"])
+                if ru.get("to") is not None:
+                    rec["to"] = ru["to"]
+                rec["hops"] += 1
+                self.pending.append(rec)
         else:
             self.log.append((rec["uid"], rec["cont"], self.now))
             self._advance(rec, h, rec["cont"])
